@@ -5,6 +5,7 @@ C01-C03 argument menus, plus the in-place library functions) is *probed* on an u
 nodes, edges or memberships there is a structural mutation and must, on the frozen network, raise XGIError and leave
 everything unchanged.  No list of mutators is kept in the checker."""
 import inspect
+import itertools
 import random
 
 from xmc import alphabets as A
@@ -62,6 +63,11 @@ def menu_for(obj):
     return ops
 
 
+_REPRESENTATIVE = ("H.add_node", "H.add_nodes_from", "H.add_edge", "H.add_edges_from", "H.add_simplex", "H.add_simplices_from",
+                   "H.remove_node", "H.remove_edge", "H.remove_simplex_id", "H.clear", "H.update", "H.add_node_to_edge",
+                   "H.cleanup", "H.merge_duplicate_edges")
+
+
 def _liberr(o):
     import xgi
 
@@ -89,10 +95,21 @@ def _inv_frozen(ctx):
         if len(out) < 6:
             out.append((mon, msg, {"how": how, "method": (op or op0).split("(", 1)[0], "cls": cls}))
 
-    makers = [("freeze", lambda H: (H.freeze(), H)[1])]
+    makers = [("freeze", lambda H: (H.freeze(), H)[1], True)]
     if cls != "DiHypergraph":
-        makers.append(("subhypergraph", lambda H: xgi.subhypergraph(H)))
-        makers.append(("subhypergraph(nodes)", lambda H: xgi.subhypergraph(H, nodes=list(H.nodes)[:2])))
+        makers.append(("subhypergraph", lambda H: xgi.subhypergraph(H), True))
+        makers.append(("subhypergraph(nodes)", lambda H: xgi.subhypergraph(H, nodes=list(H.nodes)[:2]), True))
+        # the whole selection grid of subhypergraph (node selections x edge selections x keep_isolates), probed with one
+        # representative call per structural mutator: every selection - also one that induces nothing - returns a
+        # frozen network
+        nsel = {"None": lambda H: None, "all": lambda H: list(H.nodes), "first": lambda H: list(H.nodes)[:1],
+                "last2": lambda H: list(H.nodes)[-2:], "[]": lambda H: [], "unknown": lambda H: ["zz"]}
+        esel = {"None": lambda H: None, "[]": lambda H: [], "first": lambda H: list(H.edges)[:1], "unknown": lambda H: ["zz"]}
+        for (nn, nf), (en, ef), ki in itertools.product(nsel.items(), esel.items(), (True, False)):
+            if (nn, en, ki) in (("None", "None", True),):
+                continue
+            makers.append((f"subhypergraph(nodes={nn}, edges={en}, keep_isolates={ki})",
+                           lambda H, nf=nf, ef=ef, ki=ki: xgi.subhypergraph(H, nodes=nf(H), edges=ef(H), keep_isolates=ki), False))
     try:
         base = spec.build(hist, ctx.ns)
         if base.is_frozen:
@@ -100,7 +117,14 @@ def _inv_frozen(ctx):
         menu = menu_for(base)
     except Exception as e:  # noqa: BLE001
         return [("harness", f"could not prepare state: {type(e).__name__}: {e}", {"how": "prepare", "method": op0.split("(", 1)[0], "cls": cls})]
-    for how, make in makers:
+    short = []
+    seen_m = set()
+    for op in menu:
+        m = op.split("(", 1)[0]
+        if m in _REPRESENTATIVE and m not in seen_m:
+            seen_m.add(m)
+            short.append(op)
+    for how, make, full in makers:
         try:
             Fz = make(spec.build(hist, ctx.ns))
         except Exception as e:  # noqa: BLE001
@@ -121,7 +145,7 @@ def _inv_frozen(ctx):
             bad("copy-of-frozen", f"copy() of a frozen network differs: {C.snap_diff(C.snapshot(Fz), tsnap)}", how)
         tstruct = structure(twin)
         dirty = False
-        for op in menu:
+        for op in (menu if full else short):
             if dirty:
                 twin = Fz.copy()
                 dirty = False
@@ -189,7 +213,9 @@ def run(tier, ev):
     import xgi
 
     ev.cov["rule"] = ("every canonical state reached by a structural alphabet (depth 1 quick / 2 thorough from 6+4+4 initial "
-                      "states), frozen by freeze() and - for hypergraphs and complexes - obtained from subhypergraph(); at each, "
+                      "states), frozen by freeze() and - for hypergraphs and complexes - obtained from subhypergraph() under its whole "
+                      "selection grid (6 node selections x 4 edge selections x keep_isolates, probed with one representative call "
+                      "per structural mutator; the default and a two-node selection with the full menu); at each, "
                       "every call of the menu (all public methods by introspection with the C01-C03 argument menus + generic "
                       "argument tuples for methods the menus do not mention + in-place library functions) is probed on an "
                       "unfrozen copy; calls that change structure there must raise XGIError on the frozen network and leave its "
